@@ -89,7 +89,7 @@ pub fn worker(prop: &str, tier: Tier, base: u64, start: u64, count: u64, threads
                         let _ = writeln!(o, "{}", json!({"start": i}));
                         let _ = o.flush();
                     }
-                    let ctx = RunCtx::new(seed, tier);
+                    let ctx = RunCtx::at(base, i, seed, tier);
                     let r = run_one(&prop, &ctx);
                     let line = report_to_json(i, seed, &r);
                     let mut o = out.lock().unwrap();
@@ -233,10 +233,10 @@ pub fn verif_dir() -> std::path::PathBuf {
 }
 
 /// ddmin-style minimisation over the scenario's maskable elements.
-fn minimise(prop: &str, seed: u64, tier: Tier, class: &str, elements: usize, budget: usize) -> (Vec<usize>, Report) {
+fn minimise(prop: &str, base: u64, index: u64, seed: u64, tier: Tier, class: &str, elements: usize, budget: usize) -> (Vec<usize>, Report) {
     let mut disabled: BTreeSet<usize> = BTreeSet::new();
     let mut best = {
-        let ctx = RunCtx::new(seed, tier);
+        let ctx = RunCtx::at(base, index, seed, tier);
         run_one(prop, &ctx)
     };
     let mut runs = 0usize;
@@ -251,7 +251,7 @@ fn minimise(prop: &str, seed: u64, tier: Tier, class: &str, elements: usize, bud
             }
             let mut trial = disabled.clone();
             trial.extend(group.iter().copied());
-            let mut ctx = RunCtx::new(seed, tier);
+            let mut ctx = RunCtx::at(base, index, seed, tier);
             ctx.disabled = trial.iter().copied().collect();
             let r = run_one(prop, &ctx);
             runs += 1;
@@ -272,7 +272,7 @@ fn minimise(prop: &str, seed: u64, tier: Tier, class: &str, elements: usize, bud
     (disabled.into_iter().collect(), best)
 }
 
-fn write_replay(prop: &str, seed: u64, tier: Tier, disabled: &[usize], r: &Report, tag: &str) -> std::path::PathBuf {
+fn write_replay(prop: &str, base: u64, index: u64, seed: u64, tier: Tier, disabled: &[usize], r: &Report, tag: &str) -> std::path::PathBuf {
     let dir = verif_dir().join("replays");
     let _ = std::fs::create_dir_all(&dir);
     let path = dir.join(format!("{prop}-{seed:016x}{tag}.json"));
@@ -280,6 +280,8 @@ fn write_replay(prop: &str, seed: u64, tier: Tier, disabled: &[usize], r: &Repor
     let doc = json!({
         "property": prop,
         "seed": seed,
+        "verif_seed": base,
+        "index": index,
         "tier": tier.name(),
         "disabled": disabled,
         "expect_class": v.map(|v| v.class.clone()),
@@ -308,7 +310,7 @@ pub fn replay(path: &str) -> i32 {
     let prop = doc["property"].as_str().unwrap_or("").to_string();
     let seed = doc["seed"].as_u64().unwrap_or(0);
     let tier = Tier::parse(doc["tier"].as_str().unwrap_or("quick"));
-    let mut ctx = RunCtx::new(seed, tier);
+    let mut ctx = RunCtx::at(doc["verif_seed"].as_u64().unwrap_or(0), doc["index"].as_u64().unwrap_or(0), seed, tier);
     ctx.disabled = doc["disabled"]
         .as_array()
         .map(|a| a.iter().filter_map(|x| x.as_u64()).map(|x| x as usize).collect())
@@ -439,7 +441,7 @@ pub fn check(prop: &str, tier: Tier) -> i32 {
                 key: "process-abort".into(),
                 detail: "the worker process aborted (abort/stack overflow/signal) while executing this run".into(),
             });
-            let path = write_replay(prop, seed, tier, &[], &r, "-abort");
+            let path = write_replay(prop, base, *i, seed, tier, &[], &r, "-abort");
             println!("VIOLATION property={prop} replay={}", path.display());
             replay_paths.push(path.display().to_string());
         }
@@ -447,6 +449,7 @@ pub fn check(prop: &str, tier: Tier) -> i32 {
     }
     if let Some(first) = real_violations.first() {
         let seed = first["seed"].as_u64().unwrap();
+        let index = first["i"].as_u64().unwrap_or(0);
         let class = first["violation"]["class"].as_str().unwrap_or("").to_string();
         let elements = first["elements"].as_u64().unwrap_or(0) as usize;
         println!(
@@ -454,13 +457,13 @@ pub fn check(prop: &str, tier: Tier) -> i32 {
             first["i"], first["violation"]["detail"].as_str().unwrap_or("")
         );
         let (disabled, best) = if elements > 0 {
-            minimise(prop, seed, tier, &class, elements, 120)
+            minimise(prop, base, index, seed, tier, &class, elements, 120)
         } else {
-            (vec![], run_one(prop, &RunCtx::new(seed, tier)))
+            (vec![], run_one(prop, &RunCtx::at(base, index, seed, tier)))
         };
         if best.violation.is_some() {
             println!("minimised: {} of {} plan elements disabled", disabled.len(), elements);
-            let path = write_replay(prop, seed, tier, &disabled, &best, "");
+            let path = write_replay(prop, base, index, seed, tier, &disabled, &best, "");
             println!("VIOLATION property={prop} replay={}", path.display());
             replay_paths.push(path.display().to_string());
         } else {
@@ -472,7 +475,7 @@ pub fn check(prop: &str, tier: Tier) -> i32 {
                 detail: first["violation"]["detail"].as_str().unwrap_or("").into(),
             });
             r.det_hash = first["det_hash"].as_u64().unwrap_or(0);
-            let path = write_replay(prop, seed, tier, &[], &r, "");
+            let path = write_replay(prop, base, index, seed, tier, &[], &r, "");
             println!("VIOLATION property={prop} replay={}", path.display());
             replay_paths.push(path.display().to_string());
         }
@@ -483,9 +486,10 @@ pub fn check(prop: &str, tier: Tier) -> i32 {
             let c = v["violation"]["class"].as_str().unwrap_or("").to_string();
             if seen.insert(c.clone()) && seen.len() <= 4 {
                 let seed = v["seed"].as_u64().unwrap();
-                let r = run_one(prop, &RunCtx::new(seed, tier));
+                let idx = v["i"].as_u64().unwrap_or(0);
+                let r = run_one(prop, &RunCtx::at(base, idx, seed, tier));
                 if r.violation.is_some() {
-                    let path = write_replay(prop, seed, tier, &[], &r, "");
+                    let path = write_replay(prop, base, idx, seed, tier, &[], &r, "");
                     println!("VIOLATION property={prop} replay={}", path.display());
                     replay_paths.push(path.display().to_string());
                 }
@@ -509,7 +513,7 @@ pub fn check(prop: &str, tier: Tier) -> i32 {
                 key: format!("{name}-below-floor"),
                 detail: format!("{name}: {ok} of {n} runs succeeded ({rate:.3}), floor {floor}"),
             });
-            let path = write_replay(prop, base, tier, &[], &r, "-floor");
+            let path = write_replay(prop, base, 0, base, tier, &[], &r, "-floor");
             println!("VIOLATION property={prop} replay={}", path.display());
             replay_paths.push(path.display().to_string());
             exit = 1;
